@@ -129,7 +129,35 @@ def poly_equal(a: Rat, b: Rat) -> bool:
     return (a - b).is_zero()
 
 
-OPAQUE_FUNCS_COMMUTATIVE_ARGS = set()
+# opaque functions that are symmetric in their (positional) arguments: the atom is written with the arguments sorted
+OPAQUE_FUNCS_COMMUTATIVE_ARGS = {'maximum', 'minimum', 'fmax', 'fmin', 'hypot'}
+
+
+# --- opaque atoms are identified by value, not by spelling -----------------------------------------------------
+# An application `f(a, b)` of a function the algebra does not open is an atom.  Two applications of the same function
+# are the same atom when their arguments are *equal as rational functions* (decided by cross-multiplication), whatever
+# the order in which the arguments were built up (`x/2 + x/2`, `(x*y)/y` and `x` print differently but are equal).
+# The first spelling met names the atom; ATOM_PARTS keeps (function, arguments) for rules that explain a difference.
+_ATOM_TABLE: dict[tuple, list] = {}
+ATOM_PARTS: dict[str, tuple] = {}
+
+
+def _same_arg(a, b) -> bool:
+    if isinstance(a, Rat) and isinstance(b, Rat):
+        return poly_equal(a, b)
+    return isinstance(a, str) and isinstance(b, str) and a == b
+
+
+def opaque_atom(head: str, args: list, kws: tuple = ()) -> 'Rat':
+    """the atom of `head(args…, kws…)`; args are Rat (compared by value) or text (compared as written)"""
+    key = (head, len(args), tuple(kws))
+    for known, name in _ATOM_TABLE.setdefault(key, []):
+        if all(_same_arg(x, y) for x, y in zip(known, args)):
+            return Rat(_p_atom(name))
+    name = f'{head}({", ".join([str(a) for a in args] + list(kws))})'
+    _ATOM_TABLE[key].append((list(args), name))
+    ATOM_PARTS[name] = (head, list(args), tuple(kws))
+    return Rat(_p_atom(name))
 
 
 def _lit(v) -> Fraction:
@@ -182,7 +210,7 @@ def normal_form(e: ast.AST, env: dict[str, ast.AST] | None = None, consts: dict[
                 if n >= 0:
                     return Rat(_p_pow(base.num, n), _p_pow(base.den, n))
                 return Rat(_p_pow(base.den, -n), _p_pow(base.num, -n))
-            return Rat(_p_atom(f'pow({base}, {ex})'))
+            return opaque_atom('pow', [base, ex])
         a = normal_form(e.left, env, consts, depth + 1)
         b = normal_form(e.right, env, consts, depth + 1)
         if isinstance(e.op, ast.Add):
@@ -199,16 +227,18 @@ def normal_form(e: ast.AST, env: dict[str, ast.AST] | None = None, consts: dict[
         args = []
         for a in e.args:
             try:
-                args.append(str(normal_form(a, env, consts, depth + 1)))
+                args.append(normal_form(a, env, consts, depth + 1))
             except AlgebraError:
                 args.append(_subst_text(a, env))
         kws = [f'{k.arg}={_subst_text(k.value, env)}' for k in e.keywords]
         short = fn.split('.')[-1]
         if short in ('float', 'asarray', 'array') and len(e.args) == 1 and not e.keywords:
             return normal_form(e.args[0], env, consts, depth + 1)
-        if short == 'sqrt' and len(e.args) == 1:
-            return Rat(_p_atom(f'pow({args[0]}, 1/2)'))
-        return Rat(_p_atom(f'{short}({", ".join(args + kws)})'))
+        if short == 'sqrt' and len(e.args) == 1 and isinstance(args[0], Rat):
+            return opaque_atom('pow', [args[0], Rat(_p_const(Fraction(1, 2)))])
+        if short in OPAQUE_FUNCS_COMMUTATIVE_ARGS and not kws:
+            args = sorted(args, key=str)
+        return opaque_atom(short, args, tuple(kws))
     if isinstance(e, ast.Subscript):
         return Rat(_p_atom(_subst_text(e, env)))
     if isinstance(e, ast.IfExp):
